@@ -89,7 +89,8 @@ void collect(Result& r)
 }
 
 // ------------------------------------------------------------------------------------------------
-static long g_cur_idx = -1; static int g_fatal_fd = -1;
+static long g_cur_idx = -1; static int g_fatal_fd = -1; static bool g_recycle = false;
+void request_recycle() { g_recycle = true; }
 static void fatal_hook(const char *kind)
 {
 	if (g_fatal_fd >= 0) { std::string s = std::string("hang\t") + kind + "\n"; (void)!__real_write(g_fatal_fd, s.data(), s.size()); }
@@ -131,13 +132,14 @@ static int worker(Harness& h, uint64_t seed, long start, long stride, long count
 		for (auto& v : r.v) printf("V %ld %s\t%s\t%s\n", idx, v.cls.c_str(), one_line(v.sig).c_str(), one_line(v.detail).c_str());
 		if (r.nontrivial && samples < 2) { ++samples; js::Val s = p.to_json(); s.set("run_index", js::Val((long long)idx)); printf("SAMPLE %s\n", s.dump().c_str()); }
 		fflush(stdout);
+		if (g_recycle) break;
 	}
 	js::Val st = js::Val::obj();
 	st.set("runs", js::Val((long long)runs)).set("nontrivial", js::Val((long long)nontriv)).set("sim_s", js::Val(sim_s))
 	  .set("steps", js::Val((unsigned long long)steps)).set("preemptions", js::Val((unsigned long long)preempt)).set("wall_s", js::Val(wall() - t0));
 	js::Val c = js::Val::obj(); for (auto& kv : agg) c.set(kv.first, js::Val((long long)kv.second)); st.set("counters", c);
 	printf("STATS %s\n", st.dump().c_str()); fflush(stdout);
-	return 0;
+	return g_recycle ? 5 : 0;
 }
 
 static std::string slurp(const std::string& f) { std::ifstream i(f); std::stringstream ss; ss << i.rdbuf(); return ss.str(); }
